@@ -219,10 +219,18 @@ func decodeString(src *bufio.Reader, noQuotes bool) []byte {
 	length := decodeIntAdditionalType(src, minor)
 	len := int(length)
 	pbs := readNBytes(src, len)
-	result = append(result, pbs...)
 	if noQuotes {
-		return result
+		return append(result, pbs...)
 	}
+	for i := 0; i < len; i++ {
+		// Same rule as decodeUTF8String: anything that cannot stand
+		// as is between JSON quotes goes through the escaper.
+		if pbs[i] < 0x20 || pbs[i] > 0x7e || pbs[i] == '\\' || pbs[i] == '"' {
+			result = decodeStringComplex(result, string(pbs), uint(i))
+			return append(result, '"')
+		}
+	}
+	result = append(result, pbs...)
 	return append(result, '"')
 }
 func decodeStringToDataUrl(src *bufio.Reader, mimeType string) []byte {
